@@ -68,63 +68,106 @@ theorem rootOf_cidVal (h : Nat) (root : Bytes) : rootOf (cidVal h root) = root :
 
 /-- a single-batch block commit leaves the latest commit id at `next` with the block's root -/
 theorem last_after_single (d : Disk) (next : Nat) (b : BlockIn) :
-    smGet (dbOf (d ++ blockBatches .single next b)) (mkKey lastPrefix maxVer) = some (cidVal next b.root) := by
+    smGet (dbOf (d ++ blockBatches .single .lss next b)) (mkKey lastPrefix maxVer) = some (cidVal next b.root) := by
   simp only [blockBatches]
   rw [dbOf_snoc, smGet_applyBatch (sorted_dbOf d)]
-  have hsplit : cidPart next b ++ smtPart next b ++ statePart next b ++ idxPart next b =
+  have hsplit : cidPart .lss next b ++ smtPart next b ++ statePart next b ++ idxPart next b =
       [BatchOp.put (mkKey lastPrefix maxVer) (cidVal next b.root)] ++
       ([BatchOp.put (mkKey (commitIDKey next) next) (cidVal next b.root)] ++ smtPart next b ++ statePart next b ++ idxPart next b) := by
-    simp [cidPart]
+    simp [cidPart, PtrAt.version]
   rw [hsplit, batchLookup_append, batchLookup_of_not_key (rest_not_last next b)]
   simp [batchLookup]
 
+/-- in a sorted list, seeking a key that is present finds it -/
+theorem head_dropWhile_present {l : List Entry} (hs : SSorted l) {k v : Bytes} (hm : (k, v) ∈ l) :
+    (l.dropWhile fun e => blt e.1 k).head? = some (k, v) := by
+  induction l with
+  | nil => cases hm
+  | cons a l ih =>
+    rw [List.dropWhile_cons]
+    rcases List.mem_cons.mp hm with rfl | hm'
+    · simp [blt_irrefl]
+    · have hlt : blt a.1 k = true := hs.head_lt (k, v) hm'
+      simp only [hlt, if_true]
+      exact ih hs.tail hm'
+
+/-- the versioned read of user key `u` at version `v` returns the record stored at exactly `(u, v)` when
+there is one — whatever else the key space holds (no well-formedness of other keys is needed) -/
+theorem getRaw_present {db : DB} (hs : SSorted db) {u : Bytes} (hu : u ≠ []) {v : Nat} (hv : v ≤ maxVer) {raw : Bytes}
+    (h : smGet db (mkKey u v) = some raw) : (VS.mk db v).getRaw u = some (parseVal raw) := by
+  have hm : (mkKey u v, raw) ∈ db := (smGet_eq_some_iff hs _ _).mp h
+  have hb : (mkKey u v, raw) ∈ bound db u (prefixEnd u) := by
+    unfold bound
+    rw [List.mem_filter]
+    refine ⟨hm, ?_⟩
+    have h1 : ble u (mkKey u v) = true := ble_of_prefix ⟨invVer v, rfl⟩
+    have h2 : blt (mkKey u v) (prefixEnd u) = true := blt_prefixEnd (by rw [invVer_length]; omega)
+    simp [h1, h2]
+  have hsb : SSorted (bound db u (prefixEnd u)) := List.Pairwise.filter _ hs
+  have hd := head_dropWhile_present hsb hb
+  unfold VS.getRaw PCur.seekGE PCur.cur?
+  simp only [Bool.false_eq_true, if_false, hd, userKeyOf_mkKey v hu, versionOf_mkKey u hv]
+  simp
+
+/-- **the pointer `getLatestCommitID` reads is the record at the reserved version** whenever there is one:
+records of the same key written at block heights sort after it and are never reached -/
+theorem latestPointer_of_last {d : Disk} {raw : Bytes} (h : smGet (dbOf d) (mkKey lastPrefix maxVer) = some raw) :
+    latestPointer d = some (rawAlive (parseVal raw).2) := by
+  unfold latestPointer
+  rw [getRaw_present (sorted_dbOf d) (by decide) (Nat.le_refl _) h]
+  rfl
+
 theorem version_of_last {d : Disk} {raw : Bytes} (h : smGet (dbOf d) (mkKey lastPrefix maxVer) = some raw) :
     version d = heightOf raw := by
-  unfold version; rw [h]
+  unfold version; rw [latestPointer_of_last h]; rfl
+
+theorem latestRoot_of_last {d : Disk} {raw : Bytes} (h : smGet (dbOf d) (mkKey lastPrefix maxVer) = some raw) :
+    latestRoot d = rootOf raw := by
+  unfold latestRoot; rw [latestPointer_of_last h]; rfl
 
 theorem version_commit_single (d : Disk) (b : BlockIn) (hv : version d + 1 < 18446744073709551616) :
-    version (commitBlock .single d b) = version d + 1 := by
+    version (commitBlock .single .lss d b) = version d + 1 := by
   have h := last_after_single d (version d + 1) b
   unfold commitBlock
   rw [version_of_last h]
   exact heightOf_cidVal _ _ hv
 
-theorem latestRoot_commit_single (d : Disk) (b : BlockIn) : latestRoot (commitBlock .single d b) = b.root := by
-  unfold commitBlock latestRoot
-  rw [last_after_single]
+theorem latestRoot_commit_single (d : Disk) (b : BlockIn) : latestRoot (commitBlock .single .lss d b) = b.root := by
+  unfold commitBlock
+  rw [latestRoot_of_last (last_after_single d _ b)]
   exact rootOf_cidVal _ _
 
 /-! ## runs -/
 
-theorem run_append (sh : Shape) (d : Disk) (a b : List BlockIn) : run sh d (a ++ b) = run sh (run sh d a) b := by
+theorem run_append (sh : Shape) (p : PtrAt) (d : Disk) (a b : List BlockIn) : run sh p d (a ++ b) = run sh p (run sh p d a) b := by
   simp [run, List.foldl_append]
 
-theorem run_prefix (sh : Shape) (bs : List BlockIn) : ∀ d : Disk, ∃ X, run sh d bs = d ++ X := by
+theorem run_prefix (sh : Shape) (p : PtrAt) (bs : List BlockIn) : ∀ d : Disk, ∃ X, run sh p d bs = d ++ X := by
   induction bs with
   | nil => intro d; exact ⟨[], by simp [run]⟩
   | cons b bs ih =>
     intro d
-    obtain ⟨X, hX⟩ := ih (commitBlock sh d b)
-    exact ⟨blockBatches sh (version d + 1) b ++ X, by
-      show run sh (commitBlock sh d b) bs = _
+    obtain ⟨X, hX⟩ := ih (commitBlock sh p d b)
+    exact ⟨blockBatches sh p (version d + 1) b ++ X, by
+      show run sh p (commitBlock sh p d b) bs = _
       rw [hX]; simp [commitBlock]⟩
 
-theorem length_run_single (bs : List BlockIn) : ∀ d : Disk, (run .single d bs).length = d.length + bs.length := by
+theorem length_run_single (bs : List BlockIn) : ∀ d : Disk, (run .single .lss d bs).length = d.length + bs.length := by
   induction bs with
   | nil => intro d; simp [run]
   | cons b bs ih =>
     intro d
-    show (run .single (commitBlock .single d b) bs).length = _
+    show (run .single .lss (commitBlock .single .lss d b) bs).length = _
     rw [ih]; simp [commitBlock, blockBatches]; omega
 
 theorem version_run_single (bs : List BlockIn) : ∀ d : Disk, version d + bs.length < 18446744073709551616 →
-    version (run .single d bs) = version d + bs.length := by
+    version (run .single .lss d bs) = version d + bs.length := by
   induction bs with
   | nil => intro d _; simp [run]
   | cons b bs ih =>
     intro d h
     simp only [List.length_cons] at h
-    show version (run .single (commitBlock .single d b) bs) = _
+    show version (run .single .lss (commitBlock .single .lss d b) bs) = _
     have hv := version_commit_single d b (by omega)
     rw [ih _ (by rw [hv]; omega), hv]; simp; omega
 
@@ -132,13 +175,13 @@ theorem version_empty : version [] = 0 := by decide
 
 /-- with one batch per block, the first `j` batches of a run are the run of the first `j` blocks -/
 theorem take_run_single (bs : List BlockIn) (j : Nat) :
-    (run .single [] bs).take j = run .single [] (bs.take j) := by
+    (run .single .lss [] bs).take j = run .single .lss [] (bs.take j) := by
   by_cases hj : j ≤ bs.length
   · have hsplit : bs = bs.take j ++ bs.drop j := (List.take_append_drop j bs).symm
     conv => lhs; rw [hsplit, run_append]
-    obtain ⟨X, hX⟩ := run_prefix .single (bs.drop j) (run .single [] (bs.take j))
+    obtain ⟨X, hX⟩ := run_prefix .single .lss (bs.drop j) (run .single .lss [] (bs.take j))
     rw [hX]
-    have hl : (run .single [] (bs.take j)).length = j := by
+    have hl : (run .single .lss [] (bs.take j)).length = j := by
       rw [length_run_single]; simp; omega
     rw [List.take_left' hl]
   · have h1 : bs.take j = bs := List.take_of_length_le (by omega)
@@ -149,7 +192,7 @@ theorem take_run_single (bs : List BlockIn) (j : Nat) :
 
 /-- every operation of the batch of block `next` is on a key of version `next` or 2^64-1 -/
 theorem batch_versions (next : Nat) (b : BlockIn) :
-    ∀ op ∈ cidPart next b ++ smtPart next b ++ statePart next b ++ idxPart next b,
+    ∀ op ∈ cidPart .lss next b ++ smtPart next b ++ statePart next b ++ idxPart next b,
       ∃ u w, opKey op = mkKey u w ∧ (w = next ∨ w = maxVer) := by
   intro op hop
   simp only [List.mem_append, cidPart, List.mem_cons, List.not_mem_nil, or_false, smtPart, idxPart,
@@ -168,7 +211,7 @@ theorem batch_versions (next : Nat) (b : BlockIn) :
 /-- committing block `next` leaves every versioned entry below `next` (and below 2^64-1) as it was -/
 theorem commit_keeps_older (d : Disk) (b : BlockIn) (u : Bytes) (w : Nat) (hw : w < version d + 1)
     (hv : version d + 1 < maxVer) :
-    smGet (dbOf (commitBlock .single d b)) (mkKey u w) = smGet (dbOf d) (mkKey u w) := by
+    smGet (dbOf (commitBlock .single .lss d b)) (mkKey u w) = smGet (dbOf d) (mkKey u w) := by
   unfold commitBlock
   simp only [blockBatches]
   rw [dbOf_snoc, smGet_applyBatch (sorted_dbOf d), batchLookup_of_not_key]
@@ -178,5 +221,263 @@ theorem commit_keeps_older (d : Disk) (b : BlockIn) (u : Bytes) (w : Nat) (hw : 
   intro h
   have := (mkKey_inj (by rcases hw' with rfl | rfl <;> omega) (by omega) h).2
   rcases hw' with rfl | rfl <;> omega
+
+/-! ## histories with `Rollback` in the middle -/
+
+/-- the SMT node keys of a block do not collide with a commit-id key (both live under `x/`, as `Root()` is
+written; node keys are not of the form `lenPrefix(decimal height)`) -/
+def SmtOK (b : BlockIn) : Prop := ∀ e ∈ b.smt, ∀ h : Nat, e.1 ≠ joinLenPrefix [decimal h]
+
+theorem commitIDKey_ne (k : Bytes) (h : Nat) : commitIDKey h ≠ idxPrefix ++ k ∧
+    commitIDKey h ≠ lssPrefix ++ k ∧ commitIDKey h ≠ hssPrefix ++ k := by
+  unfold commitIDKey
+  rw [cidPrefix_eq, idxPrefix_eq, lssPrefix_eq, hssPrefix_eq]
+  simp
+
+theorem commitIDKey_ne_nil (h : Nat) : commitIDKey h ≠ [] := by
+  unfold commitIDKey; rw [cidPrefix_eq]; simp
+
+/-- the operations after the commit-id record in a block's batch never touch that record -/
+theorem rest_not_cid (next : Nat) (b : BlockIn) (hb : SmtOK b) :
+    ∀ op ∈ smtPart next b ++ statePart next b ++ idxPart next b,
+      opKey op ≠ mkKey (commitIDKey next) next := by
+  intro op hop
+  simp only [List.mem_append, smtPart, idxPart, statePart, commitBatch, List.mem_map] at hop
+  have hne := commitIDKey_ne
+  rcases hop with (⟨e, he, rfl⟩ | hst) | ⟨e, _, rfl⟩
+  · intro h
+    have := mkKey_uk_inj h
+    unfold commitIDKey at this
+    exact hb e he next (List.append_cancel_left this)
+  · rcases hst with (⟨e, _, rfl⟩ | ⟨e, _, rfl⟩) | hd
+    · intro h; exact (hne e.1 next).2.1 (mkKey_uk_inj h).symm
+    · intro h; exact (hne e.1 next).2.2 (mkKey_uk_inj h).symm
+    · obtain ⟨e, _, rfl⟩ := mem_filterMap_delOf hd
+      intro h; exact (hne e.1 next).2.1 (mkKey_uk_inj h).symm
+  · intro h; exact (hne e.1 next).1 (mkKey_uk_inj h).symm
+
+/-- a single-batch block commit records the commit id of its height -/
+theorem cid_after_single (d : Disk) (next : Nat) (b : BlockIn) (hb : SmtOK b) :
+    smGet (dbOf (d ++ blockBatches .single .lss next b)) (mkKey (commitIDKey next) next) = some (cidVal next b.root) := by
+  simp only [blockBatches]
+  rw [dbOf_snoc, smGet_applyBatch (sorted_dbOf d)]
+  have hsplit : cidPart .lss next b ++ smtPart next b ++ statePart next b ++ idxPart next b =
+      cidPart .lss next b ++ (smtPart next b ++ statePart next b ++ idxPart next b) := by
+    simp
+  rw [hsplit, batchLookup_append, batchLookup_of_not_key (rest_not_cid next b hb)]
+  simp [batchLookup, cidPart]
+
+/-- what the history has built: the chain of blocks that are the heights `1 … |c|` -/
+def specStep (c : List BlockIn) : Ev → List BlockIn
+  | .block b => c ++ [b]
+  | .rollback t => if 1 ≤ t ∧ t ≤ c.length then c.take t else c
+
+def specRun (c : List BlockIn) (evs : List Ev) : List BlockIn := evs.foldl specStep c
+
+/-- the disk holds the chain `c`: it opens at height `|c|` with the root of the last block, and the commit id
+of every height of the chain is on record -/
+structure ChainInv (d : Disk) (c : List BlockIn) : Prop where
+  ver : version d = c.length
+  root : ∀ b, c.getLast? = some b → latestRoot d = b.root
+  cid : ∀ h (hh : h < c.length), smGet (dbOf d) (mkKey (commitIDKey (h + 1)) (h + 1)) = some (cidVal (h + 1) c[h].root)
+
+theorem chainInv_empty : ChainInv [] [] :=
+  ⟨by decide, (by intro b h; cases h), (by intro h hh; cases hh)⟩
+
+theorem ChainInv.block {d : Disk} {c : List BlockIn} (hi : ChainInv d c) (b : BlockIn) (hb : SmtOK b)
+    (hlen : c.length + 1 < maxVer) : ChainInv (commitBlock .single .lss d b) (c ++ [b]) := by
+  have hmv : maxVer = 18446744073709551615 := rfl
+  refine ⟨?_, ?_, ?_⟩
+  · rw [version_commit_single d b (by rw [hi.ver]; omega), hi.ver]; simp
+  · intro b' hb'
+    simp at hb'
+    subst hb'
+    exact latestRoot_commit_single d b
+  · intro h hh
+    simp only [List.length_append, List.length_singleton] at hh
+    by_cases hlt : h < c.length
+    · rw [commit_keeps_older d b _ _ (by rw [hi.ver]; omega) (by rw [hi.ver]; omega), hi.cid h hlt]
+      simp [List.getElem_append_left hlt]
+    · have he : h = c.length := by omega
+      subst he
+      have := cid_after_single d (version d + 1) b hb
+      rw [hi.ver] at this
+      unfold commitBlock
+      rw [hi.ver, this]
+      simp
+
+/-- every operation of a rollback batch is on a key whose version is above the target -/
+theorem rollback_ops_above (db : DB) (t ver : Nat) (cid : Bytes) (u : Bytes) (w : Nat) (hw : w ≤ t) (ht : t < maxVer) :
+    ∀ op ∈ (pruneWindow db (t + 1) ver).1 ++ pruneDels db idxPrefix (t + 1) ver ++ pruneDels db cidPrefix (t + 1) ver ++
+        rollbackPatch db t (pruneWindow db (t + 1) ver).2 ++ [.put (mkKey lastPrefix maxVer) cid],
+      opKey op ≠ mkKey u w := by
+  have hwm : w ≤ maxVer := by omega
+  have hdel : ∀ (l : List Entry) (e : Entry),
+      e ∈ l.filter (fun e => decide (t + 1 ≤ versionOf e.1) && decide (versionOf e.1 ≤ ver)) → e.1 ≠ mkKey u w := by
+    intro l e he h
+    have := (List.mem_filter.mp he).2
+    rw [h, versionOf_mkKey u hwm] at this
+    simp at this
+    omega
+  have hmax : ∀ u', mkKey u' maxVer ≠ mkKey u w := by
+    intro u' h
+    have := (mkKey_inj (Nat.le_refl _) hwm h).2
+    omega
+  intro op hop
+  simp only [List.mem_append, List.mem_singleton, pruneWindow, pruneDels, rollbackPatch, List.mem_map] at hop
+  rcases hop with (((⟨e, he, rfl⟩ | ⟨e, he, rfl⟩) | ⟨e, he, rfl⟩) | ⟨sk, _, rfl⟩) | rfl
+  · exact hdel _ e he
+  · exact hdel _ e he
+  · exact hdel _ e he
+  · show opKey (match (VS.mk db t).getRaw (hssPrefix ++ sk) with
+      | some (tb, v) => if tb = deadTomb then BatchOp.del (mkKey (lssPrefix ++ sk) maxVer)
+          else BatchOp.put (mkKey (lssPrefix ++ sk) maxVer) (rawAlive v)
+      | none => BatchOp.del (mkKey (lssPrefix ++ sk) maxVer)) ≠ _
+    cases (VS.mk db t).getRaw (hssPrefix ++ sk) with
+    | none => exact hmax _
+    | some tv =>
+      obtain ⟨tb, v⟩ := tv
+      by_cases htb : tb = deadTomb
+      · simp only [htb, if_true]; exact hmax _
+      · simp only [htb, if_false]; exact hmax _
+  · exact hmax _
+
+theorem ChainInv.rollback {d : Disk} {c : List BlockIn} (hi : ChainInv d c) (t : Nat)
+    (hlen : c.length < maxVer) : ChainInv (applyEv .single .lss d (.rollback t)) (specStep c (.rollback t)) := by
+  have hmv : maxVer = 18446744073709551615 := rfl
+  simp only [applyEv, specStep]
+  by_cases h0 : t = 0 ∨ t > version d
+  · have : rollbackBatch d t = none := by unfold rollbackBatch; simp only [h0, if_true]
+    rw [this, if_neg (by rw [hi.ver] at h0; omega)]
+    exact hi
+  by_cases h1 : t = version d
+  · have : rollbackBatch d t = some none := by unfold rollbackBatch; simp only [if_neg h0, if_pos h1]
+    rw [this, if_pos (by rw [hi.ver] at h1; omega), List.take_of_length_le (by rw [hi.ver] at h1; omega)]
+    exact hi
+  have htl : t - 1 < c.length := by rw [hi.ver] at h0; omega
+  have ht1 : t - 1 + 1 = t := by omega
+  have hcid := hi.cid (t - 1) htl
+  rw [ht1] at hcid
+  have hget : (VS.mk (dbOf d) t).get (commitIDKey t) = some (be8 t ++ c[t - 1].root) := by
+    unfold VS.get
+    rw [getRaw_present (sorted_dbOf d) (commitIDKey_ne_nil t) (by rw [hi.ver] at h0; omega) hcid]
+    simp [cidVal, rawAlive, parseVal, aliveTomb, deadTomb]
+  have hb : rollbackBatch d t = some (some ((pruneWindow (dbOf d) (t + 1) (version d)).1 ++
+      pruneDels (dbOf d) idxPrefix (t + 1) (version d) ++ pruneDels (dbOf d) cidPrefix (t + 1) (version d) ++
+      rollbackPatch (dbOf d) t (pruneWindow (dbOf d) (t + 1) (version d)).2 ++
+      [.put (mkKey lastPrefix maxVer) (cidVal t c[t - 1].root)])) := by
+    unfold rollbackBatch
+    simp only [if_neg h0, if_neg h1, hget]
+    rfl
+  rw [hb, if_pos (by rw [hi.ver] at h0; omega)]
+  simp only
+  have hlast : smGet (dbOf (d ++ [(pruneWindow (dbOf d) (t + 1) (version d)).1 ++
+      pruneDels (dbOf d) idxPrefix (t + 1) (version d) ++ pruneDels (dbOf d) cidPrefix (t + 1) (version d) ++
+      rollbackPatch (dbOf d) t (pruneWindow (dbOf d) (t + 1) (version d)).2 ++
+      [.put (mkKey lastPrefix maxVer) (cidVal t c[t - 1].root)]])) (mkKey lastPrefix maxVer) = some (cidVal t c[t - 1].root) := by
+    rw [dbOf_snoc, smGet_applyBatch (sorted_dbOf d), batchLookup_append]
+    simp [batchLookup]
+  have htlt : t < 18446744073709551616 := by rw [hi.ver] at h0; omega
+  refine ⟨?_, ?_, ?_⟩
+  · rw [version_of_last hlast, heightOf_cidVal _ _ htlt]
+    simp; rw [hi.ver] at h0; omega
+  · intro b hbl
+    rw [latestRoot_of_last hlast, rootOf_cidVal]
+    have : (c.take t).getLast? = some c[t - 1] := by
+      rw [List.getLast?_eq_getElem?]
+      simp only [List.length_take]
+      have : min t c.length = t := by omega
+      rw [this, List.getElem?_take_of_lt (by omega), List.getElem?_eq_getElem htl]
+    rw [this] at hbl
+    cases hbl; rfl
+  · intro h hh
+    simp only [List.length_take] at hh
+    have hht : h < t := by omega
+    have hhc : h < c.length := by omega
+    rw [dbOf_snoc, smGet_applyBatch (sorted_dbOf d), batchLookup_of_not_key
+      (rollback_ops_above (dbOf d) t (version d) (cidVal t c[t - 1].root) _ (h + 1) (by omega) (by rw [hi.ver] at h0; omega))]
+    rw [hi.cid h hhc]
+    simp [List.getElem_take]
+
+theorem specStep_length (c : List BlockIn) (ev : Ev) : (specStep c ev).length ≤ c.length + 1 := by
+  cases ev with
+  | block b => simp [specStep]
+  | rollback t =>
+    simp only [specStep]
+    split
+    · rw [List.length_take]; omega
+    · omega
+
+/-- **`reopen_height`, the invariant form** — after any history of block commits and rollbacks, with the
+latest-commit pointer written at the reserved version, the disk holds exactly the chain the history built -/
+theorem ChainInv.run (evs : List Ev) : ∀ (d : Disk) (c : List BlockIn), ChainInv d c →
+    (∀ b, Ev.block b ∈ evs → SmtOK b) → c.length + evs.length < maxVer →
+    ChainInv (runEv .single .lss d evs) (specRun c evs) := by
+  induction evs with
+  | nil => intro d c hi _ _; exact hi
+  | cons ev evs ih =>
+    intro d c hi hok hlen
+    simp only [List.length_cons] at hlen
+    have hl := specStep_length c ev
+    apply ih (applyEv .single .lss d ev) (specStep c ev)
+    · cases ev with
+      | block b => exact hi.block b (hok b (List.mem_cons_self ..)) (by omega)
+      | rollback t => exact hi.rollback t (by omega)
+    · intro b hb; exact hok b (List.mem_cons_of_mem _ hb)
+    · omega
+
+/-! the crash prefixes of a history -/
+
+theorem runEv_append (sh : Shape) (p : PtrAt) (d : Disk) (a b : List Ev) :
+    runEv sh p d (a ++ b) = runEv sh p (runEv sh p d a) b := by
+  simp [runEv, List.foldl_append]
+
+theorem applyEv_single (p : PtrAt) (d : Disk) (ev : Ev) :
+    applyEv .single p d ev = d ∨ ∃ batch, applyEv .single p d ev = d ++ [batch] := by
+  cases ev with
+  | block b => right; exact ⟨_, rfl⟩
+  | rollback t =>
+    simp only [applyEv]
+    cases rollbackBatch d t with
+    | none => left; rfl
+    | some o =>
+      cases o with
+      | none => left; rfl
+      | some batch => right; exact ⟨batch, rfl⟩
+
+theorem runEv_prefix (p : PtrAt) (evs : List Ev) : ∀ d : Disk, ∃ X, runEv .single p d evs = d ++ X := by
+  induction evs with
+  | nil => intro d; exact ⟨[], by simp [runEv]⟩
+  | cons ev evs ih =>
+    intro d
+    obtain ⟨X, hX⟩ := ih (applyEv .single p d ev)
+    rcases applyEv_single p d ev with h | ⟨batch, h⟩
+    · exact ⟨X, by show runEv .single p (applyEv .single p d ev) evs = _; rw [hX, h]⟩
+    · exact ⟨[batch] ++ X, by show runEv .single p (applyEv .single p d ev) evs = _; rw [hX, h]; simp⟩
+
+/-- with one batch per block commit and per rollback, every batch prefix of a history's disk (no shorter
+than where it started) is the disk of a prefix of the history -/
+theorem take_runEv_single (p : PtrAt) (evs : List Ev) : ∀ (d : Disk) (j : Nat), d.length ≤ j →
+    j ≤ (runEv .single p d evs).length →
+    ∃ i, i ≤ evs.length ∧ (runEv .single p d evs).take j = runEv .single p d (evs.take i) := by
+  induction evs with
+  | nil =>
+    intro d j h1 h2
+    exact ⟨0, Nat.le_refl _, by simp only [runEv, List.foldl_nil, List.take_nil] at h2 ⊢; exact List.take_of_length_le h1⟩
+  | cons ev evs ih =>
+    intro d j h1 h2
+    by_cases hj : (applyEv .single p d ev).length ≤ j
+    · obtain ⟨i, hi, he⟩ := ih (applyEv .single p d ev) j hj h2
+      exact ⟨i + 1, by simp; omega, by simpa [runEv] using he⟩
+    · refine ⟨0, Nat.zero_le _, ?_⟩
+      rcases applyEv_single p d ev with h | ⟨batch, h⟩
+      · rw [h] at hj; omega
+      · rw [h] at hj
+        simp at hj
+        have hjd : j = d.length := by omega
+        obtain ⟨X, hX⟩ := runEv_prefix p evs (applyEv .single p d ev)
+        show (runEv .single p (applyEv .single p d ev) evs).take j = _
+        rw [hX, h, List.append_assoc, hjd, List.take_left' rfl]
+        simp [runEv]
 
 end Canopy.Crash
